@@ -687,7 +687,10 @@ func (pc *Parent) finish() int {
 	}
 	os.MkdirAll(filepath.Join(outRoot, "replays"), 0755)
 	var replayPaths []string
-	for _, v := range real {
+	for i, v := range real {
+		if i >= 25 {
+			break // one replay file per printed VIOLATION line; the evidence file carries the total count
+		}
 		name := fmt.Sprintf("%s-%016x.json", p.ID, hashStr(v.Key))
 		path := filepath.Join(outRoot, "replays", name)
 		rb, _ := json.MarshalIndent(map[string]interface{}{"property": p.ID, "tier": pc.Tier, "seed": pc.Seed, "violation": v}, "", " ")
